@@ -435,7 +435,7 @@ def field_mutations(ast, quick_rng=None, budget=None):
                 a = copy.deepcopy(ast); a["chunks"][ci][f] = v
                 if c["type"] == b"TOPO" and f in ("henc", "venc", "valence"): a["chunks"][ci]["frozen"] = body[24:]   # the data bytes stay as they were encoded
                 # a bit-packed bool chunk with a smaller count in the same byte is a consistent file (the rest keeps the default)
-                soft = "!soft" if (c["type"] == b"PROP" and f == "count" and c.get("ptype") == "b") else ""
+                soft = "!soft" if (c["type"] == b"PROP" and ((f == "count" and c.get("ptype") == "b") or (f == "first" and c["count"] == 0))) else ""   # an empty span has no position
                 out.append(("c%d%s.%s=%d%s" % (ci, tn, f, v, soft), a))
         if c["type"] == b"VERT":
             for i in range(3):
